@@ -128,7 +128,18 @@ def fold(prog, rr):
 def nm2(prog, rr):
     from tables.exceptions import NM2_STATEFUL
     cm = prog.cls("ConstraintModel")
+    # statement classes whose objects are built afresh in every call: every constructor call sits in a per-call rewriter
+    # (a subclass of ConstraintOverrideVisitor); state on such an object is per-call state
+    rewriters = {k.name for k in [prog.cls("ConstraintOverrideVisitor")] + list(prog.subclasses(prog.cls("ConstraintOverrideVisitor")))}
+    per_call = set()
     for c in prog.subclasses(cm):
+        sites = [(g, n) for g in prog.funcs for n in walk_local(g.node) if isinstance(n, ast.Call) and (dotted(n.func) or "").split(".")[-1] == c.name]
+        if sites and all(g.cls is not None and g.cls.name in rewriters for g, n in sites):
+            per_call.add(c.name)
+    rr.inst("per-call statement classes: %s" % sorted(per_call))
+    for c in prog.subclasses(cm):
+        if c.name in per_call:
+            continue
         for name, f in c.methods.items():
             if name in ("__init__", "clone", "dispose", "accept", "__str__"):
                 continue
@@ -201,7 +212,7 @@ def lw11(prog, rr):
 
 
 # --------------------------------------------------------------------------------------- RN7
-@rule("RN7", ["C03", "C06", "C16"], "a field solved or drawn in a call is locked again (set_used_rand(False)) before the call ends", engine="SAI", floor=2)
+@rule("RN7", ["C03", "C06", "C16", "C02"], "a field solved or drawn in a call is locked again (set_used_rand(False)) before the call ends", engine="SAI", floor=2)
 def rn7(prog, rr):
     f = prog.method("Randomizer", "randomize")
     # (a) unconstrained draw loop
